@@ -93,6 +93,9 @@ def planted_sets(n):
         out.append(('all', every))
     if n >= 2:
         out.append(('pos+mixed', [allpos, mixed]))
+        # a total assignment is a set of literals: any order, tuples as well
+        out.append(('one-unsorted', [mixed[::-1]]))
+        out.append(('two-unsorted', [mixed[1:] + mixed[:1], tuple(comp[::-1])]))
     return out
 
 
@@ -116,15 +119,38 @@ def make_body(case):
         from cnfgen.families.randomformulas import RandomKCNF
         from cnfgen.families.randomkxor import RandomKXOR
         gen = RandomKCNF if kind == 'kcnf' else RandomKXOR
+        fcls = RecCNF
+        if case.get('cls') == 'OPB':
+            # the same samplers building a pseudo-Boolean formula (what pbgen does)
+            from cnfgen.formula.opb import OPB
+
+            class RecOPB(OPB):
+                def __init__(self, *a, **kw):
+                    self.parities = []
+                    OPB.__init__(self, *a, **kw)
+
+                def add_parity(self, lits, constant, check=True):
+                    lits = list(lits)
+                    self.parities.append((tuple(lits), constant))
+                    OPB.add_parity(self, lits, constant, check=check)
+            fcls = RecOPB
 
         def body():
             pl = [list(a) for a in planted]
             if case.get('planted_none'):
-                F = gen(k, n, m, formula_class=RecCNF)
+                F = gen(k, n, m, formula_class=fcls)
             else:
-                F = gen(k, n, m, planted_assignments=pl, formula_class=RecCNF)
-            return {'n': F.number_of_variables(),
-                    'clauses': [list(c) for c in F.clauses()],
+                F = gen(k, n, m, planted_assignments=pl, formula_class=fcls)
+            if fcls is RecCNF:
+                cls_ = [list(c) for c in F.clauses()]
+            else:
+                # every constraint of these families is a clause: sum of literals >= 1
+                cls_ = []
+                for row in F.constraints():
+                    if row[-2] != '>=' or row[-1] != 1 or any(c != 1 for (c, _) in row[:-2]):
+                        raise AssertionError('constraint %r is not a clause' % (row,))
+                    cls_.append([l for (_, l) in row[:-2]])
+            return {'n': F.number_of_variables(), 'clauses': cls_,
                     'parities': list(F.parities), 'planted': pl}
         return body
     else:
@@ -403,6 +429,15 @@ def cases(tier, seed):
                 # planted_assignments omitted entirely (default None)
                 cs.append({'kind': kind, 'k': k, 'n': n, 'm': 1, 'planted': [],
                            'planted_none': True, 'pname': 'default'})
+                # pseudo-Boolean formula class: one or two constraints, with and
+                # without a planted assignment
+                if k <= n:
+                    mixed_ = [v if v % 2 else -v for v in range(1, n + 1)]
+                    for m_ in ((1, 2) if n <= 2 or thorough else (1,)):
+                        for pl_ in ([], [mixed_]):
+                            if estimate(kind, k, n, m_, pl_) <= limit:
+                                cs.append({'kind': kind, 'k': k, 'n': n, 'm': m_, 'planted': pl_,
+                                           'pname': 'opb', 'cls': 'OPB'})
     # command line: every execution costs ~40 ms (argparse), so the random
     # environment is explored with a deviation bound (all executions with at
     # most `max_dev` non-default answers), reported as such
